@@ -106,7 +106,17 @@ func mask(w int) uint64 {
 	return (uint64(1) << uint(w)) - 1
 }
 
-func BVConst(v uint64, w int) *Term { return mk("bvconst", BV(w), v&mask(w), 0, "") }
+// mathInts: Go integers are modelled as mathematical integers (no wrap-around; used together with
+// relaxed-real floats). The BV constructors below then build Int terms.
+var mathInts bool
+
+func BVConst(v uint64, w int) *Term {
+	if mathInts {
+		t := mk("bvconst", BV(w), v&mask(w), 0, "")
+		return IntConst(t.SVal())
+	}
+	return mk("bvconst", BV(w), v&mask(w), 0, "")
+}
 func BoolConst(b bool) *Term {
 	if b {
 		return mk("boolconst", BoolSort, 1, 0, "")
@@ -138,6 +148,9 @@ func (t *Term) IsFalse() bool { return t == False }
 
 // signed value of a bv const
 func (t *Term) SVal() int64 {
+	if t.Sort.K == SInt {
+		return int64(t.U)
+	}
 	w := t.Sort.W
 	v := t.U
 	if w < 64 && v&(uint64(1)<<uint(w-1)) != 0 {
@@ -396,6 +409,9 @@ func bvFold(op string, a, b *Term) (*Term, bool) {
 }
 
 func BVBin(op string, a, b *Term) *Term {
+	if a.Sort.K == SInt && b.Sort.K == SInt {
+		return intBin(op, a, b)
+	}
 	if a.Sort != b.Sort || a.Sort.K != SBV {
 		panic(fmt.Sprintf("bvbin %s sort mismatch %v %v", op, a.Sort, b.Sort))
 	}
@@ -470,12 +486,21 @@ func BVBin(op string, a, b *Term) *Term {
 }
 
 func BVNeg(a *Term) *Term {
+	if a.Sort.K == SInt {
+		if a.IsConst() {
+			return IntConst(-int64(a.U))
+		}
+		return App("-", IntSort, a)
+	}
 	if a.IsConst() {
 		return BVConst(-a.U, a.Sort.W)
 	}
 	return mk("bvneg", a.Sort, 0, 0, "", a)
 }
 func BVNot(a *Term) *Term {
+	if a.Sort.K == SInt {
+		return intBin("bvsub", IntConst(-1), a)
+	}
 	if a.IsConst() {
 		return BVConst(^a.U, a.Sort.W)
 	}
@@ -483,6 +508,21 @@ func BVNot(a *Term) *Term {
 }
 
 func BVCmp(op string, a, b *Term) *Term {
+	if a.Sort.K == SInt && b.Sort.K == SInt {
+		if a.IsConst() && b.IsConst() {
+			if op == "bvult" || op == "bvslt" {
+				return BoolConst(int64(a.U) < int64(b.U))
+			}
+			return BoolConst(int64(a.U) <= int64(b.U))
+		}
+		if a == b {
+			return BoolConst(op == "bvule" || op == "bvsle")
+		}
+		if op == "bvult" || op == "bvslt" {
+			return App("<", BoolSort, a, b)
+		}
+		return App("<=", BoolSort, a, b)
+	}
 	if a.Sort != b.Sort || a.Sort.K != SBV {
 		panic(fmt.Sprintf("bvcmp %s sort mismatch %v %v", op, a.Sort, b.Sort))
 	}
@@ -512,6 +552,9 @@ func BVCmp(op string, a, b *Term) *Term {
 }
 
 func Extract(hi, lo int, a *Term) *Term {
+	if a.Sort.K == SInt {
+		return a // math-int mode: conversions between integer types are value-preserving (no overflow assumed)
+	}
 	w := hi - lo + 1
 	if lo == 0 && w == a.Sort.W {
 		return a
@@ -522,6 +565,9 @@ func Extract(hi, lo int, a *Term) *Term {
 	return mk("extract", BV(w), 0, 0, fmt.Sprintf("%d %d", hi, lo), a)
 }
 func ZeroExt(a *Term, to int) *Term {
+	if a.Sort.K == SInt {
+		return a
+	}
 	if to == a.Sort.W {
 		return a
 	}
@@ -531,6 +577,9 @@ func ZeroExt(a *Term, to int) *Term {
 	return mk("zero_extend", BV(to), 0, 0, strconv.Itoa(to-a.Sort.W), a)
 }
 func SignExt(a *Term, to int) *Term {
+	if a.Sort.K == SInt {
+		return a
+	}
 	if to == a.Sort.W {
 		return a
 	}
@@ -876,4 +925,73 @@ func (t *Term) str(d int) string {
 		name = t.S
 	}
 	return "(" + name + " " + strings.Join(parts, " ") + ")"
+}
+
+// ---------- mathematical integers ----------
+
+func intBin(op string, a, b *Term) *Term {
+	ac, bc := a.IsConst(), b.IsConst()
+	x, y := int64(a.U), int64(b.U)
+	switch op {
+	case "bvadd":
+		if ac && bc {
+			return IntConst(x + y)
+		}
+		if ac && x == 0 {
+			return b
+		}
+		if bc && y == 0 {
+			return a
+		}
+		return App("+", IntSort, a, b)
+	case "bvsub":
+		if ac && bc {
+			return IntConst(x - y)
+		}
+		if bc && y == 0 {
+			return a
+		}
+		if a == b {
+			return IntConst(0)
+		}
+		return App("-", IntSort, a, b)
+	case "bvmul":
+		if ac && bc {
+			return IntConst(x * y)
+		}
+		if (ac && x == 0) || (bc && y == 0) {
+			return IntConst(0)
+		}
+		if ac && x == 1 {
+			return b
+		}
+		if bc && y == 1 {
+			return a
+		}
+		return App("*", IntSort, a, b)
+	case "bvsdiv", "bvudiv":
+		if ac && bc && y != 0 {
+			return IntConst(x / y)
+		}
+		if bc && y == 1 {
+			return a
+		}
+		return intQuo(a, b)
+	case "bvsrem", "bvurem":
+		if ac && bc && y != 0 {
+			return IntConst(x % y)
+		}
+		return App("-", IntSort, a, App("*", IntSort, b, intQuo(a, b)))
+	}
+	panic(unsupported{"bit operation " + op + " on mathematical integers"})
+}
+
+// Go's truncated quotient on SMT's floor/euclidean div
+func intQuo(a, b *Term) *Term {
+	zero := IntConst(0)
+	absa := Ite(App("<", BoolSort, a, zero), App("-", IntSort, a), a)
+	absb := Ite(App("<", BoolSort, b, zero), App("-", IntSort, b), b)
+	q := App("div", IntSort, absa, absb)
+	neg := Not(Eq(App("<", BoolSort, a, zero), App("<", BoolSort, b, zero)))
+	return Ite(neg, App("-", IntSort, q), q)
 }
